@@ -71,13 +71,18 @@ pub fn run(seed: u64, count: usize, _thorough: bool, out: &mut Out) {
         allh.sort();
         out.case("C14", call("within", vec![psx.clone(), pt_sx((0.0, 0.0, 0.0)), f(1e9)]), l(allh.into_iter().map(Sx::Z).collect()), "prop:hierarchy-tree-contains-all", n_atoms > 0);
         for _ in 0..3 {
-            let c = if !atoms.is_empty() && rng.chance(3, 4) {
+            // a third of the queries: a radius below one, close to an atom
+            let small = !atoms.is_empty() && rng.chance(1, 3);
+            let c = if small {
+                let base = atoms[rng.below(atoms.len())].pos();
+                (base.0 + rng.range(-6, 6) as f64 / 8.0, base.1 + rng.range(-6, 6) as f64 / 8.0, base.2 + rng.range(-6, 6) as f64 / 8.0)
+            } else if !atoms.is_empty() && rng.chance(3, 4) {
                 let base = atoms[rng.below(atoms.len())].pos();
                 (base.0 + rng.range(-16, 16) as f64 / 8.0, base.1 + rng.range(-16, 16) as f64 / 8.0, base.2 + rng.range(-16, 16) as f64 / 8.0)
             } else {
                 (grid(&mut rng) / 4.0, grid(&mut rng) / 4.0, grid(&mut rng) / 4.0)
             };
-            let r2 = rng.range(0, 4000) as f64 / 64.0 + 1.0 / 128.0;
+            let r2 = if small { rng.range(0, 80) as f64 / 64.0 + 1.0 / 128.0 } else { rng.range(0, 4000) as f64 / 64.0 + 1.0 / 128.0 };
             let mut found: Vec<i128> = tree.locate_within_distance(c, r2).map(|a| index_of(a)).collect();
             found.sort();
             let nonempty = !found.is_empty();
